@@ -72,6 +72,10 @@ CHECKS = {
             "DESIGN.md §3 C18",
             "Isolation: every interleaving of 2-3 recorded sessions (same TSI on two endpoints, two TSIs on one endpoint, same destination with and without source) is pushed into one MultiReceiver and each session's writer/FDT callbacks (with their endpoint and TSI) must equal the session run alone. Filter: BFS over all sequences of the 24 add/remove listen operations (2 endpoints x source/no-source x 2 TSIs, per-TSI and all-TSI) to depth 4 (quick) / 5 (thorough); after every operation 8 probe packets decide processed/dropped against reference counters. Listener: every history over {data s, close-session s, tick+cleanup} up to length 5/6 for 2 sessions, with a 6 s jump of the virtual Instant injected before every single clock read (every pair in thorough); the event word of each session must be (open close)* once the receiver is dropped, a data packet always leaves its session open, a close-session packet always leaves it closed.",
             "Trusted: the virtual Instant hook (H2) and its read counter; the probe = a single-packet FDT instance observed through fdt_received."),
+    "C19": ("model_checking", "exhaustive grid of two-clock scenarios (sender SCT/Expires vs receiver `now`) with harness-crafted packets on the real MultiReceiver, verdict compared with a two-clock reference model", "gridx",
+            "DESIGN.md §3 C19",
+            "Full product of SCT-Expires {-1h,-3s,+3s,+1h} x SCT present/absent x receiver clock offset {0, +-3 s, +-1 h, +-400 d, +-20 y} x expiry check on/off x arrival order {FDT then object, object (in-band FTI) then FDT, object (cached) then FDT, FDT-cleanup-object, two objects one early one late} x object estimate-Expires {-1h,-3s,+3s,+1h} x 1- or 3-packet FDT (the last packet's SCT counts): delivered iff the estimate of the sender clock at the moment delivery starts is <= Expires (always with the check off); when not delivered no writer is obtained and nb_objects_error stays 0; with SCT the verdict is the same for every offset. Real Sender sessions (SCT on/off) are run under every offset as a sanity layer.",
+            "Trusted: the two-clock model (DESIGN §3 C19), no transit delay, +-2 s around the expiry instant excluded as the property states."),
 }
 
 NOT_YET = {}
